@@ -411,7 +411,10 @@ def ancestors (p : Text) : List Text :=
 
 /-- home directories: `earlier` are the homes processed before this entry -/
 def homeFails (c : Cfg) (pre post : FS) (earlier : List Text) (u : User) : List Text :=
-  if u.home = devNull then [] else
+  if u.home = devNull then
+    -- the marker of a homeless user is not a directory to be made
+    (if (follow c post devNull).isSome ∧ (follow c pre devNull).isNone then [tr "devnull-home-created"] else [])
+  else
   match follow c post (clean u.home) with
   | none => [tr "home-missing"]
   | some i =>
